@@ -21,8 +21,8 @@ type C16Obs struct {
 	DialMs     int64    `json:"dialMs"`
 	// strace
 	Traced         bool     `json:"traced"`
-	Binds          []string `json:"binds"`          // paths bound
-	ListenBefore   bool     `json:"listenBefore"`   // a listen() was seen before the first write to fd 1
-	Stdout1Writes  int      `json:"stdout1Writes"`  // write(1, ...) calls
+	Binds          []string `json:"binds"`         // paths bound
+	ListenBefore   bool     `json:"listenBefore"`  // a listen() was seen before the first write to fd 1
+	Stdout1Writes  int      `json:"stdout1Writes"` // write(1, ...) calls
 	FirstWriteHead string   `json:"firstWriteHead"`
 }
